@@ -135,6 +135,7 @@ func c12(r *core.Run) {
 	r.Rule("C12/R2", "gauge identity cannot collide silently: the constructor's key depends on a per-creation source beyond {height, end, coins}, or creation is preceded by a lookup of the id")
 	r.Rule("C12/R3", "removed only when drained: each gauge delete on the reward path is behind Empty(balance)=true or follows a transfer of the whole remaining balance")
 	r.Rule("C12/R5", "the release runs on every reward block: each call on the chain block entry -> gauge iteration is control-dependent only on decisions over block height, parameters and constants")
+	r.Rule("C12/R6", "records decoded on the reward path go into a variable local to the iteration: a decode target shared across gauges accumulates the Coins of every gauge visited before, so later gauges release several tranches at once")
 	r.Rule("C12/R4", "interval: every gauge->module send is behind Before(End, now)=false, Before(End, Start)=false, Equal(End, Start)=false and Empty(balance)=false")
 	bb, _ := p.BlockEntries()
 	var entry *ssa.Function
@@ -218,6 +219,8 @@ func c12(r *core.Run) {
 			r.Check(len(u) == 0, "C12/R4", "gauge:pull-guard:"+g.name, p.InstrPos(bo.Instr), "pull behind "+g.name, "coins can be pulled from a gauge without passing the "+g.name+" test at full time precision (release outside the start–end interval or division by a zero duration)")
 		}
 	}
+	// R6 gauges (and everything else on the reward path) are decoded into fresh variables
+	staleDecodeTargets(r, "C12/R6", p.Summary(entry).Funcs)
 	// R5 the release runs on every reward block: along the call chain from the block entry to the function that
 	// iterates the gauges, the next call can be skipped only by decisions on the block height and parameters
 	{
